@@ -307,7 +307,7 @@ class DiskFile(VirtualFileContainer):
                 preamble.read(self.buffer, self.seek_granule(starting_granule.int))
 
                 data_length = preamble.data_length.int
-                if data_length == 0:
+                if preamble.length == 0:
                     data_length = self.calculate_file_length(starting_granule.int, fat, bytes_in_last_sector.int)
 
                 # The postamble follows the data in the granule chain (not necessarily in the buffer)
